@@ -11,7 +11,7 @@ CLAIM = dict(
               'header subset, row count, separator, date spelling, year/month and a symbolic single-line corruption; z3 regular-expression inclusion for the declaration and date patterns',
     text='Bounded symbolic checking: for 4 declaration orders, 4 header subsets, 0..2 data rows, blank or tab separators, both date spellings, 6 two-digit years on both sides of '
          'the century window and every month, the parsed frame array has one channel per header name in header order with the description and units of its declaration and one '
-         'frame per data line with floats and the UTC datetime / date / time objects; with a value removed or added on any data line, an undeclared name on the header line or a '
+         'frame per data line with floats and the UTC datetime / date / time objects; with a value removed or added on any data line, a value that is not a number or a date that is not a date, an undeclared name on the header line or a '
          'garbage declaration line, parse_file raises a DAT error and never returns. The declaration and date regular expressions are shown to accept every spelling of the '
          'stated shapes (language inclusion).',
     note='Trusted: CrossHair, z3 sequence theory, numpy storage; time.gmtime / strptime (C library). Selectors are made concrete by solver-enumerated branching and the parser then '
@@ -70,8 +70,8 @@ def obligations(tier):
         ob_regex('RE_CHANNEL_DEFINITION', _spec_decl, 'name_description_units'),
         ob_regex('RE_DATE_STYLE_A', _spec_date_a, 'ddMonyy'),
         ob_regex('RE_DATE_STYLE_B', _spec_date_b, 'dd-Mon-yy'),
-        Ob('dat_parse_and_reject', 'ch', '4 declaration orders, 4 header subsets, 0..2 rows, blank/tab, 2 date spellings (year with or without a leading zero), 6 years x 3 months (4 thorough), LF or CRLF line ends with or without a final one; the same file object probed and parsed repeatedly; corruption none/missing value/extra value/undeclared name/garbage declaration',
+        Ob('dat_parse_and_reject', 'ch', '4 declaration orders, 4 header subsets, 0..2 rows, blank/tab, 2 date spellings (year with or without a leading zero), 6 years x 3 months (4 thorough), LF or CRLF line ends with or without a final one; the same file object probed and parsed repeatedly; corruption none/missing value/extra value/undeclared name/garbage declaration/a value that is not a number/a date that is not a date (rejected with the DAT error, and the probe answers no)',
            ['DAT.DAT_parser._parse_file/parse_file/can_parse_file', '_unit_unix_time_to_datetime_datetime', '_unit_ddmmyy_to_datetime_date', '_unit_hhmmyy_to_datetime_time',
             '_ret_conversion_function', '_numpy_dtype', 'common.LogPass.FrameArray/FrameChannel'],
-           harness='C14_dat', func='dat_files_q' if q else 'dat_files', timeout=280 if q else 1500, parts=20),
+           harness='C14_dat', func='dat_files_q' if q else 'dat_files', timeout=280 if q else 1500, parts=28),
     ]
